@@ -8,6 +8,7 @@ import DracoProofs.EbHyps
 import DracoProofs.EbChain
 import DracoProofs.EbSeams
 import DracoProofs.EbCreateProps
+import DracoProofs.EbAttViews
 /-
   C01 (staging) — facts about the Edgebreaker mesh decoder model (DracoModel/Eb*.lean).
   The model is tied to the real decoder by the correspondence of C01 (tools/props/ebcases.py);
@@ -117,11 +118,12 @@ example : intSqrt 1000000 = 1000 ∧ intSqrt 999999 = 999 ∧ intSqrt (2 ^ 64 - 
         on which of two isomorphic mesh data the encoder runs on; hence from the isomorphism of the VIEWS
         (`tvIso` checked; for the base table it follows from CTIso: `tviso_of_ctiso`) the decoder on its own
         sequence reads back the block the encoder wrote on its own sequence;
+      * `eb_seams_correspond`, `eb_seam_flags_correspond`, `eb_att_views_iso`: from CTIso and the bit buffers to the
+        decoder's seam flags, and from there (equivariance of `RecomputeVertices`) to the isomorphism of the
+        ATTRIBUTE views; `eb_base_view_structural`: `OppInvol` / `Hedge` from `CornerTable.create`;
       * `eb_ctiso_sound`: the Boolean `ctIso` the op evaluates implies the Prop-level isomorphism `CTIso`.
       Missing for the full implication (evaluated per case — `rt-ok`, `iso-ok`, `hyp-ok` —, not proved):
-      the isomorphism of the ATTRIBUTE views (`eb_seams_correspond` / `eb_seam_flags_correspond` give the seam
-      flags from CTIso and the bit buffers; the equivariance of `RecomputeVertices` is missing — the checked
-      hypothesis `tvIso` covers it), `assign_points_correspond` (the
+      `assign_points_correspond` (the
       decoder's point ids realise the encoder's corner → attribute value relation — the checked hypothesis
       `decParent` is its instance for the parent attribute), the connectivity round trip itself (that the decoder
       builds a table with `ctIso`), the attribute section as a whole and the step from the portable values to
@@ -637,6 +639,87 @@ theorem eb_base_view_structural {faces : Faces} {table : CornerTable}
     (hc : CornerTable.create faces = some table) {d : TView} {φ ψ : Nat → Nat}
     (h : TVIso d (CT.ofTable table).view φ ψ) : OppInvol d ∧ Hedge d :=
   structural_of_create hc h
+
+open Draco.EbEnc in
+/-- (b) **the ATTRIBUTE views are isomorphic** (equivariance of `RecomputeVertices`): base views `TVIso` (from CTIso:
+    `tviso_of_ctiso`), the encoder's table made by `CornerTable.create` with the images of the decoder's faces
+    non-degenerate, seam flags that correspond (`eb_seam_flags_correspond`), seam edges marked at their vertices
+    on both sides, and the two runs of `RecomputeVertices` (second loop of `buildAttConn` / `recomputeVertices`)
+    successful ⇒ the attribute views — what the per-corner attribute sequencers and prediction schemes work on —
+    are `TVIso` under the SAME corner map.  Table invariants taken as hypotheses: the recorded left-most corner of a
+    vertex is a corner of that vertex (`hvcD`, `hvcE`) and reaches every corner of the vertex by swinging right on the
+    decoder's side (`hcovD`; on the encoder's side this is `createF_fan_complete`). -/
+theorem eb_att_views_iso {faces : Faces} {table : CornerTable} (hc : CornerTable.create faces = some table)
+    (t : CT) (htab : t = CT.ofTable table)
+    (n : Nat) (dc2v dopp dvc : Array Nat) (φ ψ : Nat → Nat)
+    (hB : TVIso (baseViewD n dc2v dopp dvc) t.view φ ψ)
+    (hszc : dc2v.size = 3 * n) (hszo : dopp.size = 3 * n)
+    (hvcD : ∀ v, v < dvc.size → dvc[v]! ≠ inv → dvc[v]! < 3 * n ∧ dc2v[dvc[v]!]! = v)
+    (hcovD : ∀ d, d < 3 * n → ∃ k, iter (AttViews.sRP dopp) k dvc[dc2v[d]!]! = d)
+    (hvcE : ∀ v, v < t.vc.size → t.vc[v]! ≠ inv → t.vc[v]! < t.numCorners ∧ t.c2v[t.vc[v]!]! = v)
+    (hnd : ∀ d, d < 3 * n → faceDegenerate faces (φ d / 3) = false)
+    (seamCorners : Array Nat) (aD : AttConn) (hrD : buildAttConn dc2v dopp dvc seamCorners = .ok aD)
+    (esE vsE : Array Bool) (hesE : esE.size = t.numCorners)
+    (hflag : ∀ d, d < 3 * n → aD.edgeSeam[d]! = esE[φ d]!)
+    (hsvD : ∀ c, c < 3 * n → aD.edgeSeam[c]! = true → aD.vertSeam[dc2v[Eb.prevC c]!]! = true)
+    (hsvE : ∀ c, c < t.numCorners → esE[c]! = true → vsE[t.c2v[Eb.prevC c]!]! = true)
+    (c2vE lmE : Array Nat) (hrE : recomputeVertices t esE vsE = .ok (c2vE, lmE)) :
+    ∃ ψ', TVIso { c2v := aD.c2v, opp := dopp, seam := aD.edgeSeam, lm := aD.lm, isAtt := true, numFaces := n }
+      { c2v := c2vE, opp := t.opp, seam := esE, lm := lmE, isAtt := true, numFaces := t.numFaces } φ ψ' :=
+  att_views_iso_nondeg hc t htab n dc2v dopp dvc φ ψ hB hszc hszo hvcD hcovD hvcE hnd seamCorners aD hrD esE vsE hesE
+    hflag hsvD hsvE c2vE lmE hrE
+
+section AttViewsExample
+open Draco.EbEnc
+
+def exFaces1 : Faces := #[(0, 1, 2)]
+def exTable1 : CornerTable := (CornerTable.create exFaces1).get (by decide +kernel)
+theorem exCreate1 : CornerTable.create exFaces1 = some exTable1 := by simp [exTable1]
+def exCT1 : CT := ⟨#[0, 1, 2], #[inv, inv, inv], #[0, 1, 2], 0, 0⟩
+theorem exCT1_eq : exCT1 = CT.ofTable exTable1 := by
+  have h : (CT.ofTable exTable1).c2v = #[0, 1, 2] ∧ (CT.ofTable exTable1).opp = #[inv, inv, inv] ∧
+    (CT.ofTable exTable1).vc = #[0, 1, 2] ∧ (CT.ofTable exTable1).numDegenerated = 0 ∧
+    (CT.ofTable exTable1).numIsolated = 0 := by decide +kernel
+  rcases hh : CT.ofTable exTable1 with ⟨a, b, c, d, e⟩
+  rw [hh] at h
+  obtain ⟨rfl, rfl, rfl, rfl, rfl⟩ := h
+  rfl
+
+set_option maxRecDepth 20000 in
+theorem exBuild1 : buildAttConn #[0, 1, 2] #[inv, inv, inv] #[0, 1, 2] #[0, 1, 2] =
+    .ok ⟨#[true, true, true], #[true, true, true], #[0, 1, 2], #[0, 1, 2], true⟩ := by
+  simp [buildAttConn, wrB, rdB, wr, rd, Eb.vertex, Eb.opposite, Eb.swingRight, inv, Eb.nextC, Eb.prevC,
+    Std.Legacy.Range.forIn_eq_forIn_range', Std.Legacy.Range.size, bind, Except.bind, pure, Except.pure, List.range'_succ]
+  decide
+
+set_option maxRecDepth 20000 in
+theorem exRecompute1 : recomputeVertices exCT1 #[true, true, true] #[true, true, true] = .ok (#[0, 1, 2], #[0, 1, 2]) := by
+  simp [recomputeVertices, exCT1, CT.numCorners, rdB, wr, rd, Eb.opposite, Eb.swingRight, inv, Eb.nextC, Eb.prevC,
+    Std.Legacy.Range.forIn_eq_forIn_range', Std.Legacy.Range.size, bind, Except.bind, pure, Except.pure, List.range'_succ]
+  decide
+
+theorem three (d : Nat) (h : d < 3 * 1) : d = 0 ∨ d = 1 ∨ d = 2 := by omega
+
+/-- non-vacuity of `eb_att_views_iso`: one triangle, all three edges boundary seams -/
+example : ∃ ψ', TVIso { c2v := #[0, 1, 2], opp := #[inv, inv, inv], seam := #[true, true, true], lm := #[0, 1, 2], isAtt := true, numFaces := 1 }
+      { c2v := #[0, 1, 2], opp := exCT1.opp, seam := #[true, true, true], lm := #[0, 1, 2], isAtt := true, numFaces := exCT1.numFaces }
+      (phiOf #[0]) ψ' :=
+  eb_att_views_iso exCreate1 exCT1 exCT1_eq 1 #[0, 1, 2] #[inv, inv, inv] #[0, 1, 2] (phiOf #[0]) (fun v => #[0, 1, 2][v]!)
+    (tvIsoCheck_sound _ _ _ #[0, 1, 2] #[0, 1, 2] #[0, 1, 2] (by rfl)) rfl rfl
+    (by intro v hv; have : v = 0 ∨ v = 1 ∨ v = 2 := by (have : v < 3 := hv); omega
+        rcases this with rfl | rfl | rfl <;> decide)
+    (by intro d hd; rcases three d hd with rfl | rfl | rfl <;> exact ⟨0, by decide⟩)
+    (by intro v hv; have : v = 0 ∨ v = 1 ∨ v = 2 := by (have : v < 3 := hv); omega
+        rcases this with rfl | rfl | rfl <;> decide)
+    (by intro d hd; rcases three d hd with rfl | rfl | rfl <;> decide)
+    #[0, 1, 2] _ exBuild1 #[true, true, true] #[true, true, true] rfl
+    (by intro d hd; rcases three d hd with rfl | rfl | rfl <;> decide)
+    (by intro d hd; rcases three d hd with rfl | rfl | rfl <;> decide)
+    (by intro d hd; have : d = 0 ∨ d = 1 ∨ d = 2 := by (have : d < 3 := hd); omega
+        rcases this with rfl | rfl | rfl <;> decide)
+    _ _ exRecompute1
+
+end AttViewsExample
 
 open Draco.EbEnc in
 /-- (b) **CTIso as a proposition**: the Boolean checker the op evaluates on every case (`iso-ok`) implies the
